@@ -745,7 +745,7 @@ def close(ctx, name, impl, ref, tol):
         key = name.split("[")[0]
         ctx.worst_case[key] = max(ctx.worst_case.get(key, 0.0), wc)
     tol = S.lift(Fraction(tol).limit_denominator(10**30))
-    ctx.claim(name, S.And(d <= tol, -d <= tol), robust=[S.Or(d >= 10 * tol, -d >= 10 * tol)])
+    ctx.claim(name, S.And(d <= tol, -d <= tol), robust=[S.Or(d >= k, -d >= k) for k in (S.lift(Fraction(1, 100)), S.lift(Fraction(1, 10**5)), 10 * tol)])
 
 
 def close_array(ctx, name, impl, ref, tol, cells=None):
